@@ -166,9 +166,12 @@ def rules(ck, P):
                 stats["reviewed"] += 1
                 ck.ok("R-STREAM-TOTAL", s.key, "%s: %s" % (e["class"], e["reason"]), s.loc)
                 continue
-            if s.key in t19 and census.entry_lapsed(t19[s.key], s) is None and lapsed is None:
-                stats["shared-with-C19"] += 1
-                continue
+            if s.key in t19 and lapsed is None:
+                from . import c19 as _c19
+                lapsed = census.entry_lapsed(t19[s.key], s) or _c19.validate_witness(P, t19[s.key], s)
+                if lapsed is None:
+                    stats["shared-with-C19"] += 1
+                    continue
             stats["violation"] += 1
             chain = P.chain(seen, fq)
             ck.violation("R-STREAM-TOTAL", s.key, "panic-capable %s site `%s` in a stream (reached from %s) is not classified: the stream has no error channel, so a site that "
